@@ -159,7 +159,10 @@ def via_epub(markup):
                    '<spine><itemref idref="c1"/></spine></package>')
         z.writestr("OEBPS/c1.xhtml", markup)
     book = next(read_epub(io.BytesIO(buf.getvalue()), path="t.epub"))
-    return "\n".join(ch.text for ch in book.chapters) if book.chapters else "<no chapter extracted>"
+    if not book.chapters:
+        return "<no chapter extracted>"
+    # chapter text + what the chapter keeps elsewhere (table cells, <title>)
+    return "\n".join(f"{ch.text}\n{ch.title}\n{ch.tables!r}" for ch in book.chapters)
 
 
 WRAPPERS = [("read_html", via_html), ("read_mhtml", via_mhtml), ("msg._html_to_text", via_msg), ("read_epub chapter", via_epub)]
